@@ -29,7 +29,7 @@ PROP = dict(
     required_theorems=["Octo.C10.is_refl", "Octo.C10.is_trans", "Octo.C10.is_sound", "Octo.C10.sum_idem",
                        "Octo.C10.sum_upper_partial", "Octo.C10.sum_upper_l", "Octo.C10.sum_upper_r", "Octo.C10.sum_wf",
                        "Octo.C10.sum_least", "Octo.C10.sum_comm", "Octo.C10.sum_fuel_mono", "Octo.C10.typeIds_tie", "Octo.C10.typeRelations_tie",
-                       "Octo.C10.inter_sub", "Octo.C10.inter_sub_l", "Octo.C10.inter_sub_r", "Octo.C10.inter_wf", "Octo.C10.sum_upper_recfree", "Octo.C10.typeOf_conforms_recfree",
+                       "Octo.C10.inter_sub", "Octo.C10.inter_sub_l", "Octo.C10.inter_sub_r", "Octo.C10.inter_wf", "Octo.C10.sum_upper_recfree", "Octo.C10.typeOf_conforms_recfree", "Octo.C10.typeOf_wf",
                        "Octo.C10.nonNullable_spec", "Octo.C10.nonNullable_sub", "Octo.C10.typeOf_conforms",
                        "Octo.C10.C10_refuted", "Octo.C10.C10_partial", "Octo.C10.sum_upper_refuted",
                        "Octo.C10.typeOf_refuted", "Octo.C10.raw_inter_refuted", "Octo.C10.raw_typeOf_refuted"],
